@@ -118,6 +118,49 @@ func RandReader(r *Rand, n int, faults bool, delays bool) *plan.ReaderPlan {
 	return rp
 }
 
+// StructuralOffset draws a byte offset at a structural boundary of the actual
+// bytes: right after (or at) a delimiter such as = < > " ' & ; / or a space,
+// half of the time inside the first 1 KiB (the charset sniffing window).
+func StructuralOffset(r *Rand, doc []byte) int {
+	n := len(doc)
+	if n == 0 {
+		return 0
+	}
+	lim := n
+	if r.Bool() && n > 1024 {
+		lim = 1024
+	}
+	for try := 0; try < 64; try++ {
+		i := r.Intn(lim)
+		switch doc[i] {
+		case '=', '<', '>', '"', '\'', '&', ';', '/', ' ', '-', ':', '#', '?':
+			if r.P(2, 3) {
+				return i + 1
+			}
+			return i
+		}
+	}
+	return r.Intn(n)
+}
+
+// RandReaderDoc is RandReader with fault offsets drawn from the document's own structure half of the time.
+func RandReaderDoc(r *Rand, doc []byte, faults bool, delays bool) *plan.ReaderPlan {
+	rp := RandReader(r, len(doc), faults, delays)
+	if rp.FaultAt >= 0 && rp.FaultAt < len(doc) && r.Bool() {
+		rp.FaultAt = StructuralOffset(r, doc)
+	}
+	return rp
+}
+
+// RandFSDoc is RandFS with structural offsets.
+func RandFSDoc(r *Rand, doc []byte) *plan.FSPlan {
+	fp := RandFS(r, len(doc))
+	if (fp.Kind == "trunc" || fp.Kind == "eio") && r.Bool() {
+		fp.At = StructuralOffset(r, doc)
+	}
+	return fp
+}
+
 // biasedOffset draws a byte offset biased to the interesting places of a stream.
 func biasedOffset(r *Rand, n int) int {
 	if n <= 0 {
